@@ -627,3 +627,64 @@ def enum_trees(tier, seed):
     for i, spec in enumerate(extra[: (150 if tier == "quick" else 2500)]):
         out.append(enum_tree_scenario(spec, 100000 + i, nets[i % 3], rng.choice([100, 100, 1, 2, 3]), anchor_diff=rng.choice([1, 1, 2])))
     return out
+
+
+# ---------------------------------------------------------------------------------------------
+# C15: more than 10,000 fee-paying transactions (thorough tier)
+# ---------------------------------------------------------------------------------------------
+def fee_cut_history(seed=1, per_block=3400, nblocks=4):
+    """Blocks with thousands of one-input transactions.  All transactions have the same shape (same
+    vsize); the oldest block that straddles the 10,000 cut pays one uniform fee, so that the statement's
+    freedom about WHICH of its transactions count cannot matter."""
+    rng = random.Random(seed)
+    w = World(rng, net="regtest", naddr=2, prefix_pair=False)
+    total = per_block * nblocks
+    # funding: coinbases with many outputs
+    fund = []
+    parent = 1
+    left = total
+    while left > 0:
+        k = min(left, 2500)
+        outs = [cb(1, 1000) for _ in range(k)]
+        tid = w.new_tx([], outs)
+        bid = len(w.blocks) + 1
+        ledger = dict(w.blocks[parent]["ledger"])
+        w.apply(ledger, tid)
+        t = w.blocks[parent]["time"] + 600
+        w.blocks[bid] = {"id": bid, "parent": parent, "height": w.blocks[parent]["height"] + 1, "time": t, "txs": [tid], "diff": 1, "ledger": ledger}
+        w.block_list.append({"id": bid, "parent": parent, "diff": 1, "time": t, "txs": [tid]})
+        fund += [(tid, j) for j in range(1, k + 1)]
+        parent = bid
+        left -= k
+    rng.shuffle(fund)
+    cmds = [{"c": "tick", "dt": 1000000}]
+    spend_blocks = []
+    pos = 0
+    for bi in range(nblocks):
+        cbt = w.new_tx([], [cb(2, 1)])
+        txs = [cbt]
+        # the oldest spending block (the one cut by the 10,000 limit) pays a uniform fee
+        fees = [7] if bi == 0 else [1, 2, 3, 5, 8, 13, 21, 34, 55, 89, 144, 233]
+        for _ in range(per_block):
+            o = fund[pos]
+            pos += 1
+            fee = rng.choice(fees)
+            txs.append(w.new_tx([o], [cb(2, 1000 - fee)], w=False))
+        bid = len(w.blocks) + 1
+        t = w.blocks[parent]["time"] + 600
+        w.blocks[bid] = {"id": bid, "parent": parent, "height": w.blocks[parent]["height"] + 1, "time": t, "txs": txs, "diff": 1, "ledger": {}}
+        w.block_list.append({"id": bid, "parent": parent, "diff": 1, "time": t, "txs": txs})
+        spend_blocks.append(bid)
+        parent = bid
+    allb = [b["id"] for b in w.block_list]
+    for b in allb:
+        cmds.append({"c": "offer", "initial": complete([b])})
+        cmds.append({"c": "hb"})
+        cmds.append({"c": "hb"})
+        cmds.append(q("fees"))
+    cmds.append({"c": "upgrade", "d": {}})
+    cmds.append(q("fees"))
+    cmds.append({"c": "upgrade", "d": {"lazy": True}})
+    cmds.append({"c": "hb"})
+    cmds.append(q("fees"))
+    return w.scenario(f"fee-cut-{seed}", {"thr": 100, "seed": seed, "book": False, "lazy": False}, cmds)
